@@ -184,6 +184,13 @@ def execute(case):
                     bad("side_effect", f"schedule() changed the live workers: free GPUs {free} -> { {w.id: free_gpu(w) for w in workers} }")
                 elif live() != live_before:
                     bad("side_effect", f"schedule() changed the live workers (free GPU, free RAM, loaded, pending): {live_before} -> {live()}")
+                # a model evicted by this very decision is not loaded any more for the batches of the same decision (the
+                # simulator applies evictions first)
+                for p in placements:
+                    if p.placement_type == Placement.PlacementType.EVICT_WORK_PROFILE:
+                        for w in workers:
+                            if w.id == p.worker_id and p.work_profile.name in loaded[w.id]:
+                                loaded[w.id] = [x for x in loaded[w.id] if x != p.work_profile.name]
                 batches = {}
                 decided = {}
                 for p in placements:
